@@ -2118,7 +2118,14 @@ int32_t pstm_exptmod(psPool_t *pool, const pstm_int *G, const pstm_int *X,
         }
         Memcpy(Mod, pstmnt_const_ptr(P), pstmnt_size_bytes(P));
 
+        /* Result is non-negative and has P->used digits: clear whatever the
+           output object held above that. */
+        for (x = P->used; x < Y->used; x++)
+        {
+            Y->dp[x] = 0;
+        }
         Y->used = P->used;
+        Y->sign = PSTM_ZPOS;
         if (Y->used > Y->alloc)
         {
             if (pstm_grow(Y, Y->used) != PSTM_OKAY)
